@@ -218,11 +218,14 @@ def r14e(ck, prog):
 
 def run(ck, progs):
     describe(ck)
+    ck.rule("R14f", "in each reader a letter and its other-case twin take the same branch of the character classification (all 26 pairs evaluated)")
     ck.rule("R14e", "each letter's margin in the kind decision (nucleotide weight - protein weight) equals that of its case twin, and T's equals U's: the decision is linear in the histogram, so this is exactly spelling-invariance")
     for cfg, prog in progs.items():
         ck.attempt(r14a, ck, prog)
         ck.attempt(r14bc, ck, prog)
         ck.attempt(r14e, ck, prog)
+        from . import c04
+        ck.attempt(c04.r04i, ck, prog, rule="R14f", case_only=True)
         b0 = len(ck.instances)
         ck.attempt(c13.r13b, ck, prog, premise=False)       # the quarter-protein premise is C13's clause, not a spelling matter
         for i in ck.instances[b0:]:
